@@ -3276,6 +3276,14 @@ def replace_collection_add_update_with_collection_literal(source: str) -> str:
         core.walk_sequence(root, *template, expand_last=True)
     ):
         matches = _fill_statements_not_reading(node.common_target.id, matches)
+        # x.append() / x.add() take exactly one element; a starred argument is not one element, and
+        # `*arg` of extend / update cannot be starred once more.
+        matches = list(
+            itertools.takewhile(
+                lambda m: not any(isinstance(arg, ast.Starred) for arg in m[0].value.args)
+                and (m[0].value.func.attr in {"extend", "update"} or len(m[0].value.args) == 1),
+                matches,
+        ))
         if not matches:
             continue
 
